@@ -59,13 +59,13 @@ type c13Scenario struct {
 	BP        int    `json:"breakpoints"` // 0 nil, 1 non-nil never reached, 2 reached
 	Canceller int    `json:"canceller"`   // 0 absent, 1 cancels before the call, 2 concurrent
 	Deadline  bool   `json:"deadline_context"`
-	Runs      int    `json:"runs,omitempty"`              // number of consecutive Run calls by the caller (0 = 1)
-	R0        int    `json:"r0,omitempty"`                // initial refresh register (0 = base vector's, else value+1)
-	SepCtx    bool   `json:"separate_contexts,omitempty"` // Run #1 gets the cancellable context, later Runs a fresh one nobody cancels
-	PanicAt   int    `json:"panic_at_read,omitempty"`     // the memory callback panics at this caller read (Run is left by unwinding)
-	Cause     bool   `json:"cancel_cause,omitempty"`      // the parent is a WithCancelCause context cancelled with a custom cause: Run still returns ctx.Err()
+	Runs      int    `json:"runs,omitempty"`               // number of consecutive Run calls by the caller (0 = 1)
+	R0        int    `json:"r0,omitempty"`                 // initial refresh register (0 = base vector's, else value+1)
+	SepCtx    bool   `json:"separate_contexts,omitempty"`  // Run #1 gets the cancellable context, later Runs a fresh one nobody cancels
+	PanicAt   int    `json:"panic_at_read,omitempty"`      // the memory callback panics at this caller read (Run is left by unwinding)
+	Cause     bool   `json:"cancel_cause,omitempty"`       // the parent is a WithCancelCause context cancelled with a custom cause: Run still returns ctx.Err()
 	BgCtx     bool   `json:"background_context,omitempty"` // Run(context.Background()): Done() is nil, nothing can ever cancel; Run must still leave nothing behind
-	Pending   bool   `json:"refused_request,omitempty"`   // a maskable request stays pending for the whole Run (IFF1 clear, the program never executes EI)
+	Pending   bool   `json:"refused_request,omitempty"`    // a maskable request stays pending for the whole Run (IFF1 clear, the program never executes EI)
 	Sched     []int  `json:"schedule,omitempty"`
 }
 
